@@ -65,14 +65,19 @@ Definition reason_code (r : order_reason) : Z :=
   match r with TooShort => 1 | FirstNotState => 2 | LastNotMeasurement => 3 | TooManyStates => 4 | TooManyPovms => 5 end.
 Definition kind_code (k : kind) : Z := match k with KState => 0 | KPovm => 1 | KGate => 2 | KMprocess => 3 end.
 Definition kind_of_code (z : Z) : kind := if z =? 0 then KState else if z =? 1 then KPovm else if z =? 2 then KGate else KMprocess.
-(* four numbers per result: class, i, j, detail *)
-Definition out_vres (r : vres) : list Qc :=
+(* one packed integer per result:  class + 8*(detail + 8*(flag + 2*(i + 4096*j)))
+   class: 0 ok, 1 QuaraScheduleItemError, 2 QuaraScheduleOrderError, 3 UnboundLocalError escapes;
+   detail: exception caught (1 Type, 2 Value, 3 Index) resp. order rule (1..5) *)
+Definition pack (cls detail : Z) (flag : bool) (i j : nat) : Z :=
+  cls + 8 * (detail + 8 * ((if flag then 1 else 0) + 2 * (Z.of_nat i + 4096 * Z.of_nat j))).
+Definition pack_vres (r : vres) (flag : bool) : Z :=
   match r with
-  | VOk => [qz 0; qz 0; qz 0; qz 0]
-  | VItemError i j e => [qz 1; zn i; zn j; qz (exc_code e)]
-  | VOrderError i r => [qz 2; zn i; qz 0; qz (reason_code r)]
-  | VUnbound i => [qz 3; zn i; qz 0; qz 0]
+  | VOk => pack 0 0 flag 0 0
+  | VItemError i j e => pack 1 (exc_code e) flag i j
+  | VOrderError i r => pack 2 (reason_code r) flag i 0
+  | VUnbound i => pack 3 0 flag i 0
   end.
+Definition out_vres (r : vres) : list Qc := [qz (pack_vres r false)].
 
 (* c20.items : cfg alpha -> per alphabet entry  [0; kind; index] | [exc; 0; 0] *)
 Definition op_items : opfun := fun zs _ =>
@@ -84,7 +89,7 @@ Definition op_items : opfun := fun zs _ =>
                            end) alpha)
   end end.
 
-(* c20.validate : cfg alpha N slist_1..slist_N -> 4 numbers per schedule list *)
+(* c20.validate : cfg alpha N slist_1..slist_N -> one packed result per schedule list *)
 Definition op_validate : opfun := fun zs _ =>
   match dec_cfg zs with None => Err (-1) | Some (c, l1) =>
   match dec_alpha l1 with None => Err (-2) | Some (alpha, l2) =>
@@ -100,7 +105,7 @@ Definition op_order : opfun := fun zs _ =>
   end.
 
 (* c20.setters : cfg alpha slist(initial) K op_1..op_K ;  op := k(0..3) mask | 4 slist
-   -> 4 numbers for the constructor, then 4 numbers per setter (state is threaded through) *)
+   -> packed result of the constructor, then one packed result per setter (state is threaded through) *)
 Definition dec_setop (alpha : list pyval) : dec setop := fun l =>
   match l with
   | k :: r => if k =? 4 then match dec_slist alpha r with Some (ss, r') => Some (SetSchedules ss, r') | None => None end
@@ -124,7 +129,7 @@ Definition op_setters : opfun := fun zs _ =>
   end end end end.
 
 (* c20.calc : cfg alpha slist Q value_1..value_Q (schedule_index arguments)
-   -> constructor result (4 numbers); if accepted, per query 3 numbers:
+   -> constructor result (packed); if accepted, per query 3 numbers:
       [0; ends_in_povm; number of mprocess items] | [1; pos; 0] ValueError | [2;0;0] IndexError | [3;0;0] TypeError | [4;0;0] *)
 Definition out_cres (r : cres) : list Qc :=
   match r with
@@ -146,8 +151,8 @@ Definition op_calc : opfun := fun zs _ =>
   end end end end.
 
 (* c20.tomo : class ns np alpha N arg_1..arg_N ;  arg := 0 n c_1..c_n (a str) | 1 slist
-   -> per case 5 numbers: [class; i; j; detail; shape]   class: 0 ok, 1 item error, 2 order error, 3 unbound,
-      4 guard ValueError, 5 guard IndexError, 6 str ValueError;  shape = 1 iff every schedule has the class's shape
+   -> per case one packed result, class: 0 ok, 1 item error, 2 order error, 3 unbound (from the Experiment),
+      4 guard ValueError, 5 guard IndexError, 6 str ValueError;  flag = 1 iff every schedule has the class's shape
       (for a str argument: of the expansion; 0 for an unsupported str) *)
 Definition class_of_code (z : Z) : tclass := if z =? 0 then Qst else if z =? 1 then Povmt else if z =? 2 then Qpt else Qmpt.
 Definition dec_sarg (alpha : list pyval) : dec sarg := fun l =>
@@ -156,13 +161,13 @@ Definition dec_sarg (alpha : list pyval) : dec sarg := fun l =>
   | 1 :: r => match dec_slist alpha r with Some (ss, r') => Some (AList ss, r') | None => None end
   | _ => None
   end.
-Definition out_tres (r : tres) : list Qc :=
+Definition pack_tres (r : tres) (flag : bool) : Z :=
   match r with
-  | TOk => [qz 0; qz 0; qz 0; qz 0]
-  | TExp v => out_vres v
-  | TGuardValueError i => [qz 4; zn i; qz 0; qz 0]
-  | TGuardIndexError i => [qz 5; zn i; qz 0; qz 0]
-  | TStrValueError => [qz 6; qz 0; qz 0; qz 0]
+  | TOk => pack 0 0 flag 0 0
+  | TExp v => pack_vres v flag
+  | TGuardValueError i => pack 4 0 flag i 0
+  | TGuardIndexError i => pack 5 0 flag i 0
+  | TStrValueError => pack 6 0 flag 0 0
   end.
 Definition shape_flag (t : tclass) (ns np : nat) (a : sarg) : bool :=
   match a with
@@ -175,7 +180,7 @@ Definition op_tomo : opfun := fun zs _ =>
     let t := class_of_code t in let ns := Z.to_nat ns in let np := Z.to_nat np in
     match dec_alpha l1 with None => Err (-2) | Some (alpha, l2) =>
     match dec_counted (dec_sarg alpha) l2 with None => Err (-3) | Some (args, _) =>
-      Ok (flat_map (fun a => out_tres (tomo_construct t ns np a) ++ [qb (shape_flag t ns np a)]) args)
+      Ok (map (fun a => qz (pack_tres (tomo_construct t ns np a) (shape_flag t ns np a))) args)
     end end
   | _ => Err (-1)
   end.
